@@ -40,7 +40,13 @@ type Conn struct {
 	Marks []int
 	// FailWriteAfter, when >= 0, makes Write fail once that many bytes were written.
 	FailWriteAfter int
+	// FailWriteCall, when > 0, makes that Write call (1-based) and every later one fail.
+	FailWriteCall int
+	writes        int
 }
+
+// ErrWrite is what a scripted write failure returns.
+var ErrWrite = errors.New("scripted write failure")
 
 func NewConn(chunks ...Chunk) *Conn { return &Conn{chunks: chunks, FailWriteAfter: -1} }
 
@@ -64,8 +70,12 @@ func (c *Conn) Read(p []byte) (int, error) {
 }
 
 func (c *Conn) Write(p []byte) (int, error) {
+	c.writes++
+	if c.FailWriteCall > 0 && c.writes >= c.FailWriteCall {
+		return 0, ErrWrite
+	}
 	if c.FailWriteAfter >= 0 && c.W.Len()+len(p) > c.FailWriteAfter {
-		return 0, errors.New("scripted write failure")
+		return 0, ErrWrite
 	}
 	return c.W.Write(p)
 }
